@@ -24,6 +24,39 @@ CHECKS = {
         "predicate oracle in mc/checks/c05.py. Not covered: > 8 stamps, "
         "off-grid stamps other than the literal F3 witness.",
         "DESIGN.md 4/C05"),
+    "C03": (
+        "E1-enum",
+        "exhaustive small-scope enumeration of point-set pairs on the real "
+        "umeyama_alignment against Horn's quaternion method",
+        "Every 3- and 4-point subset of the {-1,0,1}^3 grid and every 5-subset "
+        "of the unit cube, plus structured larger sets, is paired with its "
+        "image under every cube rotation x scale/translation alphabet, with "
+        "mirror images (reflection branch), one-point noise and unrelated "
+        "sets, with and without scale; all on-axis / coincident tuples up to 4 "
+        "points must be refused. Each result is checked for properness, "
+        "optimality against an independent closed form (Horn), reproduction of "
+        "the generating map, equivariance and permutation invariance.",
+        "Trusted: numpy eigh/SVD; Horn oracle in mc/refmodel/geom.py; "
+        "condition-aware tolerances (eps*|coordinate|/spread). Not covered: "
+        "point sets outside the enumerated grids.",
+        "DESIGN.md 4/C03"),
+    "C08": (
+        "E2-hist",
+        "explicit-state BFS over operation histories of live trajectory "
+        "objects with a lock-step reference model",
+        "All histories up to depth 4 (quick) / 5 (thorough) over 22 operations "
+        "(reads of each view, left/right/propagating SE(3) and Sim(3) "
+        "transformations, scale, reduce, downsample, motion filter, crop, four "
+        "alignment modes, three projections, deepcopy) from four initial "
+        "objects; after every transition every view, check() and the derived "
+        "quantities are compared with the model; states are de-duplicated on "
+        "content + hidden cache state, so every reachable combination of "
+        "'which views were read before which write' is visited.",
+        "Trusted: reference model in mc/checks/c08.py; state canonicalisation "
+        "(content rounded to 1e-9 + set of existing caches). Not covered: "
+        "histories longer than the depth bound, trajectories other than the "
+        "4-pose grid fixture.",
+        "DESIGN.md 4/C08"),
 }
 
 NOT_YET = {
